@@ -28,7 +28,7 @@ MANIFEST_ENTRY = {
 
 
 def plan(tier, seed, avoid):
-    n, per = (640, 20) if tier == "quick" else (30000, 500)
+    n, per = (640, 20) if tier == "quick" else (15000, 250)
     specs = [{"part": "gen", "start": s, "count": per} for s in range(0, n, per)]
     specs += [{"part": "matrix", "ty": t} for t in ("i8", "u8", "i16", "u16", "i32", "u32", "i64", "u64", "f32", "f64")]
     return specs
